@@ -178,6 +178,19 @@ SIMPLE = [
     V("x(index('a b c', c)) = len('d  e')", one=True),
     V("if (s == 'a b') t(idx('x y')) = 'p q'", one=True),
     V("where (a > f('m n')) a(:) = g('o p')", one=True, where=True),
+    # control lists with the keywords in another order and blanks around '='
+    V("open(file = fname, unit = 10, status = 'old')", one=True),                                                         # 154
+    V("close(status = 'keep', unit = 10)", one=True),
+    V("read(fmt = *, unit = 5) x", one=True),
+    V("write(fmt = 100, unit = 6, iostat = ios) x", one=True),
+    V("inquire(exist = flag, file = 'f.dat', unit = 10)", one=True),
+    V("rewind(err = 10, unit = 10)", one=True),
+    V("allocate(w(n), source = w2, stat = ierr)"),                                                                        # 160
+    V("call sub9(key2 = 2, key1 = x)"),
+    V("backspace(iostat = ios, unit = 10)", one=True),
+    V("flush(unit = 10, iostat = ios)"),
+    V("wait(unit = 10, iostat = ios)"),
+    V("endfile(unit = 10)", one=True),
 ]
 
 # ------------------------------------------------------------------- specification statements
